@@ -206,13 +206,16 @@ def run(tier: str) -> int:
         ("sol", "x", 5, "none"),
     ]
     prefixes = [()] + [(a,) for a in adds] + [(a, b) for a in adds for b in adds if a != b][::2] + [(a, q) for a in adds[:3] for q in qs]
+    unsat_prefixes = [(("add", "x+y==5"), ("add", "y==x")), (("add", "y==x"), ("add", "x+y==5")), (("add", "x+y==5"), ("add", "y==x"), ("add", "x!=0"))]
     if tier == "thorough":
+        adds = adds + [("add", "y==x")]
         prefixes = [()] + [(a,) for a in adds] + [(a, b) for a in adds for b in adds if a != b] + [(a, q) for a in adds for q in qs] + [(a, q, b) for a in adds[:3] for q in qs for b in adds[:3] if a != b]
     plans = [("Solver", {}, ""), ("SolverCacheless", {}, ""), ("SolverComposite", {}, ""), ("SolverHybrid", {}, "")]
     if tier == "quick":
         ops_q = [o for o in ops if o not in {("sat", "x==6"), ("eval", "x", 1, "none"), ("max", "x+y", "u", "y<u2")}]
-        plans = [("Solver", {}, "", prefixes, ops), ("SolverCacheless", {}, "", prefixes, ops_q), ("SolverComposite", {}, "", prefixes[::2], ops_q), ("SolverHybrid", {}, "", prefixes[::3], ops_q[::2])]
+        plans = [("Solver", {}, "", prefixes + unsat_prefixes, ops), ("SolverCacheless", {}, "", prefixes + unsat_prefixes, ops_q), ("SolverComposite", {}, "", prefixes[::2] + unsat_prefixes, ops_q), ("SolverHybrid", {}, "", prefixes[::3] + unsat_prefixes[:1], ops_q[::2])]
     else:
+        prefixes = prefixes + unsat_prefixes
         plans = [(c, g, t, prefixes, ops) for c, g, t in plans] + [("Solver", {"reuse": True}, "reuse", prefixes, ops), ("SolverCacheless", {"reuse": True}, "reuse", prefixes, ops)]
     items = []
     npairs = 0
